@@ -32,6 +32,7 @@ func c15(c *Ctx) {
 	c.borrow(c19, map[string]string{"C19.key-agrees": "C15.prepared-gate", "C19.key-complete": "C15.prepared-gate"})
 	r.Rule("C15.all-header-lines", "extension offers and replies spread over several Sec-WebSocket-Extensions header lines are all parsed: the loop over header lines is left only when the lines are exhausted (no break out of it)")
 	noBreakFromHeaderLoops(c, "C15.all-header-lines", "parseExtensions")
+	allHeaderLines(c, "C15.all-header-lines", "parseExtensions")
 	r.Rule("C15.offer-owned", "the client's extension offer is the library's own: a caller-supplied Sec-WebSocket-Extensions request header is never copied (same rule as C14.request-shape), so the server cannot negotiate an extension the client will not act on")
 	c.borrow(c14, map[string]string{"C14.request-shape": "C15.offer-owned"})
 	r.Rule("C15.deflater-exclusive", "a compressor returned to its pool is forgotten in the same step on every path, so two connections never deflate through one flate.Writer (the peer could not decode the mixed stream; same rule as C02.deflater-exclusive)")
